@@ -100,6 +100,18 @@ def _unref(t):
     return t
 
 
+def _cint(t):
+    """integer value of a constant term, looking through a negation"""
+    if t[0] == 'const' and isinstance(t[1], int) and not isinstance(t[1], bool):
+        return t[1]
+    if t[0] == 'un' and t[1] == 'Neg':
+        v = _cint(t[2])
+        return -v if v is not None else None
+    if t[0] == 'cast' and len(t) > 2:
+        return _cint(t[2])
+    return None
+
+
 def _range_contains(t):
     """RangeInclusive::contains(&(lo..=hi), &x) / Range::contains(&(lo..hi), &x) with constant bounds -> (lo, hi, x)"""
     name = t[1]
@@ -109,12 +121,12 @@ def _range_contains(t):
     x = _unref(t[2][1])
     if r[0] == 'call' and r[1].endswith('RangeInclusive::<Idx>::new') or (r[0] == 'call' and 'RangeInclusive' in r[1] and r[1].endswith('::new')):
         a, b = r[2]
-        if a[0] == 'const' and b[0] == 'const' and isinstance(a[1], int) and isinstance(b[1], int):
-            return a[1], b[1], x
+        if _cint(a) is not None and _cint(b) is not None:
+            return _cint(a), _cint(b), x
     if r[0] == 'agg' and isinstance(r[1], tuple) and r[1][0] == 'adt' and r[1][1].endswith('ops::Range') and len(r[2]) == 2:
         a, b = r[2]
-        if a[0] == 'const' and b[0] == 'const' and isinstance(a[1], int) and isinstance(b[1], int):
-            return a[1], b[1] - 1, x
+        if _cint(a) is not None and _cint(b) is not None:
+            return _cint(a), _cint(b) - 1, x
     return None
 
 
